@@ -120,8 +120,10 @@ structure ExprOK (scope : List String) (e : PExpr) : Prop where
 
 def ExprsOK (scope : List String) (es : List PExpr) : Prop := ∀ e ∈ es, ExprOK scope e
 
-def LeafGood (outer : List String) (s : Schema) : Leaf → Prop
-  | .ds _ _ _ preds _ => ExprsOK (s.fields ++ outer) preds
+/-- a datasource: its pushed-down predicates are well-formed and every declared field can be read from the table -/
+def LeafGood (db : Db) (outer : List String) (s : Schema) : Leaf → Prop
+  | .ds name _ _ preds mapping =>
+    ExprsOK (s.fields ++ outer) preds ∧ ∀ trows, db name = some trows → (tableRows mapping s.fields trows).isSome = true
   | .mem _ => True
   | .tvf _ _ => True
 
@@ -132,7 +134,7 @@ def UnGood (outer : List String) (s srcS : Schema) : Un → Prop
   | .groupBy _ aggExprs key _ _ => ExprsOK (srcS.fields ++ outer) (aggExprs ++ key)
   | .unnest _ => s.fields = srcS.fields
   | .ost keys _ limit => s.fields = srcS.fields ∧ ExprsOK (srcS.fields ++ outer) keys ∧ ∀ e, limit = some e → ExprOK outer e
-  | .tvf _ _ _ => True
+  | .tvf name _ _ => name = "max_diff_watermark" → s.fields = srcS.fields
 
 def BinGood (outer : List String) (s : Schema) (lf rf : List String) : Bin → Prop
   | .sjoin lk rk => s.fields = lf ++ rf ∧ ExprsOK (lf ++ outer) lk ∧ ExprsOK (rf ++ outer) rk ∧ lk.length = rk.length
@@ -143,14 +145,22 @@ def BinGood (outer : List String) (s : Schema) (lf rf : List String) : Bin → P
     builds), every expression refers only to fields of its input or of the enclosing lookup-join records (`outer`)
     and cannot fail; the right side of a lookup join cannot fail -/
 def Good (db : Db) : Plan → List String → Prop
-  | .leaf s k, outer => LeafGood outer s k
-  | .un s k src, outer => Good db src outer ∧ UnGood outer s src.schema k
+  | .leaf s k, outer => s.fields.Nodup ∧ LeafGood db outer s k
+  | .un s k src, outer => s.fields.Nodup ∧ Good db src outer ∧ UnGood outer s src.schema k
   | .bin s .ljoin l r, outer =>
-    Good db l outer ∧ Good db r (l.fields ++ outer) ∧ BinGood outer s l.fields r.fields .ljoin ∧
+    s.fields.Nodup ∧ Good db l outer ∧ Good db r (l.fields ++ outer) ∧ BinGood outer s l.fields r.fields .ljoin ∧
       ∀ ctx, Binds (l.fields ++ outer) ctx → (denote db r ctx).isSome = true
-  | .bin s (.sjoin lk rk) l r, outer => Good db l outer ∧ Good db r outer ∧ BinGood outer s l.fields r.fields (.sjoin lk rk)
+  | .bin s (.sjoin lk rk) l r, outer =>
+    s.fields.Nodup ∧ Good db l outer ∧ Good db r outer ∧ BinGood outer s l.fields r.fields (.sjoin lk rk)
   | .bin s (.ojoin il ir lk rk) l r, outer =>
-    Good db l outer ∧ Good db r outer ∧ BinGood outer s l.fields r.fields (.ojoin il ir lk rk)
+    s.fields.Nodup ∧ Good db l outer ∧ Good db r outer ∧ BinGood outer s l.fields r.fields (.ojoin il ir lk rk)
+
+theorem Good.nodup {db : Db} : ∀ {p : Plan} {outer : List String}, Good db p outer → p.fields.Nodup
+  | .leaf _ _, _, h => h.1
+  | .un _ _ _, _, h => h.1
+  | .bin _ .ljoin _ _, _, h => h.1
+  | .bin _ (.sjoin _ _) _ _, _, h => h.1
+  | .bin _ (.ojoin _ _ _ _) _ _, _, h => h.1
 
 /-- what a sound rewrite step guarantees -/
 def StepOK (db : Db) (outer : List String) (q q' : Plan) : Prop :=
@@ -202,11 +212,11 @@ theorem transformNode_ok {db : Db} {f : Plan → Option (Plan × Bool)} (hf : Lo
         simp only [hn, Option.some.injEq, Prod.mk.injEq] at h
         obtain ⟨rfl, _⟩ := h
         simp only [Good] at hg
-        obtain ⟨hs1, hs2, hs3⟩ := ih outer src' c1 hg.1 hsrc
+        obtain ⟨hs1, hs2, hs3⟩ := ih outer src' c1 hg.2.1 hsrc
         have hnode : StepOK db outer (.un s k src) (.un s k src') := by
           refine ⟨?_, rfl, ?_⟩
           · simp only [Good]
-            exact ⟨hs1, by rw [hs2]; exact hg.2⟩
+            exact ⟨hg.1, hs1, by rw [hs2]; exact hg.2.2⟩
           · intro ctx hb
             simp only [denote, hs3 ctx hb, hs2]
         exact hnode.trans (hf outer _ out c2 hnode.1 hn)
@@ -233,14 +243,14 @@ theorem transformNode_ok {db : Db} {f : Plan → Option (Plan × Bool)} (hf : Lo
             cases k with
             | ljoin =>
               simp only [Good] at hg
-              obtain ⟨hgl, hgr, hb, htot⟩ := hg
+              obtain ⟨hnd, hgl, hgr, hb, htot⟩ := hg
               obtain ⟨hl1, hl2, hl3⟩ := ihl outer l' c1 hgl hl
               obtain ⟨hr1, hr2, hr3⟩ := ihr (l.fields ++ outer) r' c2 hgr hr
               have hlf : l'.fields = l.fields := by simp only [Plan.fields, hl2]
               have hrf : r'.fields = r.fields := by simp only [Plan.fields, hr2]
               refine ⟨?_, rfl, ?_⟩
               · simp only [Good, hlf, hrf]
-                refine ⟨hl1, hr1, hb, ?_⟩
+                refine ⟨hnd, hl1, hr1, hb, ?_⟩
                 intro ctx hbd
                 rw [hr3 ctx hbd]
                 exact htot ctx hbd
@@ -255,26 +265,26 @@ theorem transformNode_ok {db : Db} {f : Plan → Option (Plan × Bool)} (hf : Lo
                   exact hr3 _ (binds_cons (denote_names hd row hrow) hbd)
             | sjoin lk rk =>
               simp only [Good] at hg
-              obtain ⟨hgl, hgr, hb⟩ := hg
+              obtain ⟨hnd, hgl, hgr, hb⟩ := hg
               obtain ⟨hl1, hl2, hl3⟩ := ihl outer l' c1 hgl hl
               obtain ⟨hr1, hr2, hr3⟩ := ihr outer r' c2 hgr hr
               have hlf : l'.fields = l.fields := by simp only [Plan.fields, hl2]
               have hrf : r'.fields = r.fields := by simp only [Plan.fields, hr2]
               refine ⟨?_, rfl, ?_⟩
               · simp only [Good, hlf, hrf]
-                exact ⟨hl1, hr1, hb⟩
+                exact ⟨hnd, hl1, hr1, hb⟩
               · intro ctx hbd
                 simp only [denote, hl3 ctx hbd, hr3 ctx hbd, hlf, hrf]
             | ojoin il ir lk rk =>
               simp only [Good] at hg
-              obtain ⟨hgl, hgr, hb⟩ := hg
+              obtain ⟨hnd, hgl, hgr, hb⟩ := hg
               obtain ⟨hl1, hl2, hl3⟩ := ihl outer l' c1 hgl hl
               obtain ⟨hr1, hr2, hr3⟩ := ihr outer r' c2 hgr hr
               have hlf : l'.fields = l.fields := by simp only [Plan.fields, hl2]
               have hrf : r'.fields = r.fields := by simp only [Plan.fields, hr2]
               refine ⟨?_, rfl, ?_⟩
               · simp only [Good, hlf, hrf]
-                exact ⟨hl1, hr1, hb⟩
+                exact ⟨hnd, hl1, hr1, hb⟩
               · intro ctx hbd
                 simp only [denote, hl3 ctx hbd, hr3 ctx hbd, hlf, hrf]
           exact hnode.trans (hf outer _ out c3 hnode.1 hn)
